@@ -449,8 +449,12 @@ var relayReasonCodes = map[string]string{
 	"relay-bad-relay-host":       "ErrCodeDeclined",
 	"relay-connection-failed":    "ErrCodeNetwork",
 	"relay-client-conn-inactive": "ErrCodeDeclined",
-	"relay-remote-inactive":      "ErrCodeDeclined",
-	"timeout":                    "ErrCodeTimeout",
+	// the frame is built as NewWrappedSystemError(ErrCodeDeclined, err) but err
+	// is already a Network system error, which the wrapper returns unchanged:
+	// what callers have always received for this reason is Network (retried
+	// under the default policy like Declined); that wire behaviour is the reference
+	"relay-remote-inactive": "ErrCodeNetwork",
+	"timeout":               "ErrCodeTimeout",
 }
 
 func c20RelayCodes(p *core.Prog, r *core.Report) {
@@ -460,6 +464,13 @@ func c20RelayCodes(p *core.Prog, r *core.Report) {
 		for name, code := range sentinelCodes {
 			if loadsGlobal(v, name) {
 				return code
+			}
+		}
+		if c := callResult(v, "NewWrappedSystemError"); c != nil && len(c.Call.Args) == 2 {
+			// NewWrappedSystemError returns an existing SystemError unchanged:
+			// the frame carries the code of the innermost system error
+			if inner := systemErrorCodeOf(p, c.Call.Args[1], 0); inner != "" {
+				return inner
 			}
 		}
 		if c := callResult(v, "NewWrappedSystemError", "NewSystemError"); c != nil {
@@ -502,8 +513,74 @@ func c20RelayCodes(p *core.Prog, r *core.Report) {
 	}
 }
 
+// c20ContextErrors: wherever the library returns a context's error to its
+// caller it goes through GetContextError (deadline -> timeout, cancel ->
+// cancelled); a raw context.DeadlineExceeded / Canceled is reported by
+// GetSystemErrorCode as "unexpected" and a relay wraps it as a network error.
+func c20ContextErrors(p *core.Prog, r *core.Report) {
+	isCtxErr := func(v ssa.Value) bool {
+		c, ok := v.(*ssa.Call)
+		if !ok || !c.Call.IsInvoke() || c.Call.Method.Name() != "Err" {
+			return false
+		}
+		return strings.HasSuffix(c.Call.Value.Type().String(), "context.Context") || strings.HasSuffix(c.Call.Value.Type().String(), ".Context") || strings.HasSuffix(c.Call.Value.Type().String(), "ContextWithHeaders")
+	}
+	n := 0
+	for _, f := range p.SrcFuncs {
+		if pkgOf(f) != core.Root || f.Signature.Results().Len() == 0 {
+			continue
+		}
+		core.EachInstr(f, func(i ssa.Instruction) {
+			ret, ok := i.(*ssa.Return)
+			if !ok {
+				return
+			}
+			for _, v := range core.ReturnValues(ret) {
+				var walk func(v ssa.Value, d int) bool
+				walk = func(v ssa.Value, d int) bool {
+					if d > 4 {
+						return false
+					}
+					if isCtxErr(v) {
+						return true
+					}
+					if ph, isPhi := v.(*ssa.Phi); isPhi {
+						for _, e := range ph.Edges {
+							if walk(e, d+1) {
+								return true
+							}
+						}
+					}
+					return false
+				}
+				if walk(v, 0) {
+					n++
+					_, reviewed := rawContextErrorReviewed[fname(f)]
+					r.Check(reviewed, "C20-R3", fname(f), "context error returned through GetContextError", p.Pos(ret.Pos()), "reviewed: "+rawContextErrorReviewed[fname(f)],
+						"a context's raw error is returned to the caller: deadline / cancellation are reported as 'unexpected' instead of timeout / cancelled")
+				}
+			}
+		})
+	}
+	// positive control: the mapping sites exist
+	m := 0
+	for _, cs := range p.CallsTo("GetContextError") {
+		if isCtxErr(core.CallArgs(cs.Call)[0]) {
+			m++
+		}
+	}
+	if m < 4 {
+		r.Errorf("GetContextError(ctx.Err()) census found %d sites (expected at least 4)", m)
+	}
+	_ = n
+}
+
+// rawContextErrorReviewed: functions that legitimately return a context's raw error.
+var rawContextErrorReviewed = map[string]string{}
+
 func c20Protocol(p *core.Prog, r *core.Report) {
 	c20RelayCodes(p, r)
+	c20ContextErrors(p, r)
 	d := p.NewDomain("", "SystemErrCode")
 	if f := mustFunc(p, r, "", "Connection", "handleError"); f != nil {
 		ok := false
@@ -598,4 +675,94 @@ func c20AppFlag(p *core.Prog, r *core.Report) {
 		})
 		r.Check(ok, "C20-R5", fname(f), "ApplicationError() = (ResponseCode == responseApplicationError)", p.Pos(f.Pos()), "reads the same byte it was written to", "the caller does not read the application-error flag from the response code")
 	}
+}
+
+// systemErrorCodeOf: if v is certainly a SystemError built with a constant
+// code (directly, through a phi, or as the result of a function all of whose
+// non-nil returns are such), the name of that code; "" otherwise.
+func systemErrorCodeOf(p *core.Prog, v ssa.Value, depth int) string {
+	if depth > 3 {
+		return ""
+	}
+	d := p.NewDomain("", "SystemErrCode")
+	name := func(k int64) string {
+		for _, n := range []string{"ErrCodeTimeout", "ErrCodeCancelled", "ErrCodeBusy", "ErrCodeDeclined", "ErrCodeUnexpected", "ErrCodeBadRequest", "ErrCodeNetwork", "ErrCodeProtocol"} {
+			if d.Of(k) == d.OfName(n) {
+				return n
+			}
+		}
+		return ""
+	}
+	v = core.Strip(v)
+	if c := callResult(v, "NewWrappedSystemError"); c != nil && len(c.Call.Args) == 2 {
+		if in := systemErrorCodeOf(p, c.Call.Args[1], depth+1); in != "" {
+			return in
+		}
+		if k, ok := core.ConstInt(c.Call.Args[0]); ok {
+			return name(k)
+		}
+	}
+	if c := callResult(v, "NewSystemError"); c != nil {
+		if k, ok := core.ConstInt(c.Call.Args[0]); ok {
+			return name(k)
+		}
+	}
+	switch x := v.(type) {
+	case *ssa.Extract:
+		if c, ok := x.Tuple.(*ssa.Call); ok {
+			if g := c.Call.StaticCallee(); g != nil && p.InAnalysed(g) && len(g.Blocks) > 0 {
+				out := ""
+				core.EachInstr(g, func(i ssa.Instruction) {
+					ret, isRet := i.(*ssa.Return)
+					if !isRet || x.Index >= len(ret.Results) {
+						return
+					}
+					rv := ret.Results[x.Index]
+					if core.IsNilConst(rv) {
+						return
+					}
+					if cde := systemErrorCodeOf(p, rv, depth+1); cde != "" {
+						out = cde
+					}
+				})
+				return out
+			}
+		}
+	case *ssa.Call:
+		if g := x.Call.StaticCallee(); g != nil && p.InAnalysed(g) && len(g.Blocks) > 0 && g.Signature.Results().Len() == 1 {
+			// a wrapper that returns what its func argument returns (withStateRLock(f)):
+			// look into the closure passed at this call site
+			if idx, ok := onceWrapper(g); ok && idx < len(x.Call.Args) {
+				if mc, isMC := x.Call.Args[idx].(*ssa.MakeClosure); isMC {
+					out := ""
+					core.EachInstr(mc.Fn.(*ssa.Function), func(i ssa.Instruction) {
+						if ret, isRet := i.(*ssa.Return); isRet && len(ret.Results) == 1 && !core.IsNilConst(ret.Results[0]) {
+							if cde := systemErrorCodeOf(p, ret.Results[0], depth+1); cde != "" {
+								out = cde
+							}
+						}
+					})
+					if out != "" {
+						return out
+					}
+				}
+			}
+			out := ""
+			core.EachInstr(g, func(i ssa.Instruction) {
+				if ret, isRet := i.(*ssa.Return); isRet && !core.IsNilConst(ret.Results[0]) {
+					if cde := systemErrorCodeOf(p, ret.Results[0], depth+1); cde != "" {
+						out = cde
+					}
+				}
+			})
+			return out
+		}
+	case *ssa.Phi:
+		for _, e := range x.Edges {
+			if cde := systemErrorCodeOf(p, e, depth+1); cde != "" {
+				return cde
+			}
+		}
+	}
+	return ""
 }
